@@ -3,7 +3,7 @@
    nat, positive, Z, Q stay the extracted inductive types. *)
 From Coq Require Import Extraction ExtrOcamlBasic.
 From Coq Require Import QArith.
-From Model Require Import Base Dense Sparse ProcessSetM NumInst LU Rosenbrock BackwardEulerM ErrorNorm RateConst ValueSem.
+From Model Require Import Base Dense Sparse ProcessSetM NumInst LU Rosenbrock BackwardEulerM ErrorNorm RateConst ValueSem Errors.
 
 Extraction Language OCaml.
 Set Extraction KeepSingleton.
@@ -22,4 +22,5 @@ Extraction "model.ml"
   Rosenbrock.ros_solve BackwardEulerM.be_solve ErrorNorm.normalized_error ErrorNorm.is_converged
   RateConst.calc_rate_constants
   ValueSem.vrun ValueSem.copy_fixed ValueSem.store0
+  Errors.expected Errors.fault_of_id
   Qred Qplus Qmult Qminus Qdiv Qcompare Z.of_nat Z.to_nat Z.compare Pos.to_nat.
